@@ -156,8 +156,23 @@ def run(ctx):
         bad = [t for t in (g.exit, g.raise_, loop) if t.id in rr]
         ctx.ob('C18-RETRY.exit-on-every-path-out-of-attempt', nf, e.ast, not bad,
                '' if not bad else 'an attempt can be left (to %s) without %s.__exit__(...)' % ([b.kind for b in bad], recv), node=e.ast)
-    handlers = [n for n in g.nodes if n.kind == 'handler' and n.lineno > loop.lineno and n.ast.type is None]
-    ctx.floor('C18-RETRY', len(handlers), 1, 'bare except handler of an attempt')
+    # every exception of the body must reach __exit__ *with its type recorded*: from the exceptional edge of the body call,
+    # each path to an __exit__ call passes `exc_type, exc, tb = sys.exc_info()` (a handler that does not catch
+    # BaseException lets KeyboardInterrupt/SystemExit/GeneratorExit reach `__exit__(None, None, None)` = commit)
+    body_calls = [n for n in nodes_calling(g, lambda c: isinstance(c.func, ast.Name) and c.func.id == 'func') if n.lineno > loop.lineno]
+    ctx.floor('C18-RETRY', len(body_calls), 1, 'body call inside an attempt')
+    rec = [n for n in g.nodes if n.kind == 'stmt' and isinstance(n.ast, ast.Assign) and norm(n.ast.value) == 'sys.exc_info()'
+           and isinstance(n.ast.targets[0], ast.Tuple) and dotted(n.ast.targets[0].elts[0]) == 'exc_type']
+    for b in body_calls:
+        srcs = [y for y, lab in g.succ[b.id] if lab == 'exc']
+        rr = g.reach(srcs, avoid=rec)
+        bad = [e for e in exits_ if e.id in rr]
+        ctx.ob('C18-RETRY.exception-type-reaches-exit', nf, b.ast, bool(rec) and not bad,
+               '' if rec and not bad else 'an exception raised by the body can reach %s.__exit__(exc_type, ...) at line %s with exc_type still '
+               'None (the handler does not catch every BaseException): the failed body is committed' % (recv, [e.lineno for e in bad][:1]),
+               node=b.ast, expected='a bare `except:` (or BaseException) that records sys.exc_info() before __exit__')
+    handlers = [n for n in g.nodes if n.kind == 'handler' and n.lineno > loop.lineno]
+    ctx.floor('C18-RETRY', len(handlers), 1, 'except handler of an attempt')
     rbs = nodes_calling(g, lambda c: isinstance(c.func, ast.Name) and c.func.id == 'rollback')
     for h in handlers:
         rr = g.reach([h], avoid=rbs)
@@ -254,6 +269,12 @@ MUTANTS = [
     dict(id='C18-m8', file='pony/orm/core.py', fn='DBSessionContextManager._wrap_coroutine_or_generator_function',
          old='                    except StopIteration as e:\n                        commit()',
          new='                    except Exception as e:\n                        commit()', expect='C18-GEN.commit-only'),
+    dict(id='C18-m13', file='pony/orm/core.py', fn='DBSessionContextManager._wrap_function',
+         old='                    except:\n                        exc_type, exc, tb = sys.exc_info()',
+         new='                    except Exception:\n                        exc_type, exc, tb = sys.exc_info()', expect='C18-RETRY.exception-type-reaches-exit'),
+    dict(id='C18-m14', file='pony/orm/core.py', fn='DBSessionContextManager._wrap_function',
+         old='                    except:\n                        exc_type, exc, tb = sys.exc_info()',
+         new='                    except BaseException:\n                        exc_type, exc, tb = sys.exc_info()', benign=True),
     dict(id='C18-m9', file='pony/orm/integration/bottle_plugin.py', fn='PonyPlugin.apply',
          old='db_session(allowed_exceptions=is_allowed_exception)(callback)', new='db_session()(callback)', expect='C18-BOTTLE'),
     dict(id='C18-m10', file='pony/orm/core.py', fn='DBSessionContextManager._wrap_function',
